@@ -289,4 +289,42 @@ def RLC.wait (r : RLC) (now ms buf : Nat) : Option (RLC × Nat × PollOutC) :=
     | _, _ => some (r1, now + ms, .pending)
   | some (r1, out) => some (r1, now, out)
 
+/-! ### The service's rate-limit cell and its subscribers
+
+`RelayService` keeps the per-client limit in a `tokio::sync::watch::Sender`;
+`set_client_rate_limit` does `send_replace`, which stores the value whether or not any
+receiver exists and marks it unseen for every receiver; each accepted connection builds its
+limiter with `RateLimited::from_watcher(io, rate_limit.subscribe(), …)`, which starts from the
+value stored *now* (`borrow_and_update`). -/
+
+structure Service where
+  /-- value held by the watch channel -/
+  stored : Option Cfg
+  /-- live connections: id and limiter -/
+  conns : List (Nat × RL)
+deriving DecidableEq, Repr
+
+/-- `RelayService::new(.., rate_limit, ..)` -/
+def Service.new (c : Option Cfg) : Service := ⟨c, []⟩
+
+/-- `set_client_rate_limit(c)` -/
+def Service.set (s : Service) (c : Option Cfg) : Service :=
+  ⟨c, s.conns.map fun (id, r) => (id, { r with pendingCfg := some c })⟩
+
+/-- Accepting connection `id` at time `now`; `none` = `AcceptError::RateLimitingMisconfigured`
+(the stored limit is invalid), nothing changes. -/
+def Service.connect (s : Service) (id now : Nat) : Option Service :=
+  match RL.fromWatcher s.stored now with
+  | none => none
+  | some r => some ⟨s.stored, (id, r) :: s.conns.filter fun c => c.1 != id⟩
+
+def Service.disconnect (s : Service) (id : Nat) : Service :=
+  ⟨s.stored, s.conns.filter fun c => c.1 != id⟩
+
+/-- The bucket connection `id` works with from its next poll (at `now`) on. -/
+def Service.limitOf (s : Service) (id now : Nat) : Option (Option Bucket) :=
+  match s.conns.find? fun c => c.1 == id with
+  | none => none
+  | some (_, r) => some (r.applyCfg now).bucket
+
 end IrohModel.C09
